@@ -226,7 +226,7 @@ CUSTOM_LAYERS = [
 ]
 
 
-def _season_window(rng, wname, crop, n_seasons, start_mode, planting=None, end_anniv=None, year=None):
+def _season_window(rng, wname, crop, n_seasons, start_mode, planting=None, end_anniv=None, year=None, full_last=False):
     """pick planting date and window inside a station's coverage"""
     lo, hi = STATIONS[wname]
     lo, hi = pd.Timestamp(lo), pd.Timestamp(hi)
@@ -249,7 +249,7 @@ def _season_window(rng, wname, crop, n_seasons, start_mode, planting=None, end_a
             start = lo
     else:  # after: start shortly after planting date -> first season is next year
         start = pdate + pd.Timedelta(days=int(rng.integers(1, 60)))
-    end = pdate + pd.Timedelta(days=365 * (n_seasons - 1) + int(rng.integers(100, 420)))
+    end = pdate + pd.Timedelta(days=365 * (n_seasons - 1) + int(rng.integers(100 if not full_last else 330, 420)))
     if end_anniv is not None:
         # the window ends a given number of days after a later planting date (a boundary of "one more season starts")
         end = pd.Timestamp(year=pdate.year + int(end_anniv[0]), month=pm, day=pd_) + pd.Timedelta(days=int(end_anniv[1]))
@@ -365,7 +365,16 @@ def gen_scenario(rng, idx, strata=None):
     wname = st.get("station") or str(rng.choice(list(STATIONS.keys())))
     n_seasons = st.get("n_seasons") or int(rng.choice([1, 1, 2, 3]))
     start_mode = st.get("start_mode") or str(rng.choice(["at", "before", "after"]))
-    planting, start, end = _season_window(rng, wname, crop_name, n_seasons, start_mode, st.get("planting"), st.get("end_anniv"), st.get("year"))
+    end_anniv = st.get("end_anniv")
+    if strata is not None and end_anniv is None and crop_name in GDD_CROPS:
+        # a stratum is there for what happens inside its seasons: a thermal-time crop's window ends shortly before the
+        # next planting date, so that no season is cut off (a cut-off season is rejected at its start: "not enough
+        # growing degree days"); the free scenarios keep arbitrary ends
+        end_anniv = (n_seasons, -5)
+    # (strata: the last season is given room to complete — a window cut off inside the only season of a crop that is
+    # harvested in the following calendar year holds no season at all, a recorded C16 finding)
+    planting, start, end = _season_window(rng, wname, crop_name, n_seasons, start_mode, st.get("planting"), end_anniv, st.get("year"),
+                                          full_last=strata is not None)
     scen = {"id": idx, "start": start, "end": end, "weather": {"kind": "file", "name": wname}}
     if st.get("synth") or (strata is None and rng.random() < 0.3):
         lo = (pd.Timestamp(start) - pd.Timedelta(days=int(rng.integers(0, 40)))).strftime("%Y-%m-%d")
@@ -378,6 +387,8 @@ def gen_scenario(rng, idx, strata=None):
     if soil_kind == "builtin":
         soil = {"type": st.get("soil") or str(rng.choice(BUILTIN_SOILS))}
         dz = DZ_CHOICES[rng.integers(len(DZ_CHOICES))]
+        if strata is not None and dz is not None and len(dz) <= 8 and float(crop_params[crop_name].get("Zmax", 1.0)) + 0.1 > sum(dz):
+            dz = None       # (few thick compartments under a deep-rooted crop: the recorded root-zone assertion, C16)
         if "dz" in st:
             dz = st["dz"]
         if dz is not None and soil["type"] != "ac_TunisLocal":
@@ -390,6 +401,8 @@ def gen_scenario(rng, idx, strata=None):
             li = int(rng.integers(0, max(1, len(lays) - 1))) if rng.random() < 0.7 else len(lays) - 1
             lays[li][5] = float(rng.choice([40, 50, 70]))
         soil = {"type": "custom", "layers": lays, "dz": DZ_CHOICES[1 + rng.integers(len(DZ_CHOICES) - 1)]}
+        if strata is not None and len(soil["dz"]) <= 8 and float(crop_params[crop_name].get("Zmax", 1.0)) + 0.1 > sum(soil["dz"]):
+            soil["dz"] = [0.1] * 12
         if st.get("dz") is not None:
             soil["dz"] = list(st["dz"])
         nlayer = len(lays)
@@ -474,7 +487,8 @@ TUNABLE = {"WPy": [50.0, 60.0, 80.0], "CCx": [0.6, 0.8], "HI0": [0.3, 0.4], "Zma
 
 QUICK_STRATA = [
     dict(crop="Wheat", station="tunis_climate.txt", irr_method=0, n_seasons=2, start_mode="at", off_season=False, soil="SandyLoam", soil_kind="builtin"),
-    dict(crop="Maize", station="champion_climate.txt", irr_method=1, n_seasons=2, start_mode="before", off_season=True),
+    dict(crop="Maize", station="champion_climate.txt", irr_method=1, n_seasons=2, start_mode="before", off_season=True, planting="05/01",
+         soil_kind="builtin", dz=None, irr_over={"SMT": [70.0, 60.0, 50.0, 40.0], "AppEff": 70.0, "MaxIrr": 12.0, "MaxIrrSeason": 10000.0}),
     dict(crop="Cotton", station="tunis_climate.txt", irr_method=2, n_seasons=1, start_mode="before", off_season=True),
     dict(crop="Potato", station="brussels_climate.txt", irr_method=3, n_seasons=2, start_mode="after", off_season=False),
     dict(crop="Wheat", station="tunis_climate.txt", irr_method=4, n_seasons=3, start_mode="at", off_season=False,
@@ -507,8 +521,13 @@ QUICK_STRATA = [
     dict(crop="PaddyRice", station="hyderabad_climate.txt", irr_method=4, fm="bunds", fm_over={"bund_water": 300.0, "z_bund": 0.1},
          soil="Paddy", soil_kind="builtin", n_seasons=2, start_mode="at", off_season=False),
     # net irrigation, thin sand over clay, deep roots, dry start
-    dict(crop="Cotton", station="tunis_climate.txt", irr_method=4, soil_kind="custom", layers=CUSTOM_LAYERS[4], n_seasons=2,
+    dict(crop="Cotton", station="tunis_climate.txt", irr_method=4, irr_over={"NetIrrSMT": 70.0}, soil_kind="custom", layers=CUSTOM_LAYERS[4],
+         dz=[0.1] * 20, planting="04/15", fm="none", gw=False, n_seasons=2,
          start_mode="at", off_season=False, iwc={"wc_type": "Pct", "method": "Layer", "depth_layer": [1, 2], "value": [30.0, 30.0]}),
+    # net irrigation on a light topsoil over a heavier subsoil the roots grow into, field-capacity start
+    dict(crop="Maize", station="champion_climate.txt", irr_method=4, irr_over={"NetIrrSMT": 70.0, "MaxIrrSeason": 10000.0}, soil_kind="custom",
+         layers=[[0.4, 0.10, 0.22, 0.41, 1200, 100], [0.8, 0.23, 0.39, 0.50, 125, 100]], dz=[0.1] * 12, planting="05/01", fm="none", gw=False,
+         n_seasons=2, start_mode="at", off_season=False, iwc={"wc_type": "Prop", "method": "Layer", "depth_layer": [1, 2], "value": ["FC", "FC"]}),
     # season closed by the configured latest harvest date; deficit irrigation on a heavy soil
     dict(crop="Cotton", station="tunis_climate.txt", planting="04/15", irr_method=1,
          irr_over={"SMT": [20.0] * 4, "MaxIrr": 25.0, "AppEff": 100.0, "MaxIrrSeason": 10000.0}, fm="none", gw=False,
